@@ -30,5 +30,6 @@ HasNegPow(l0) == \E i \in 1..Len(l0) :
                    \/ (i % 2 = 1 /\ l0[i].t = "sub" /\ HasNegPow(l0[i].e))
                    \/ (i % 2 = 0 /\ l0[i] = "^")
 NegPow(e) == LET o == Observed(e) IN HasNegPow(e.tokens) /\ Unjudged \notin AdmissiblePinned(e.tokens) /\ o \in AdmissiblePinned(e.tokens)
-Check == l <= 0 \/ EventOK(Tr[l]) \/ (IF NegPow(Tr[l]) THEN PrintT(<<"NEGPOW", l>>) ELSE PrintT(<<"MISMATCH", l>>))
+Check == /\ (l <= 0 \/ EventOK(Tr[l]) \/ (IF NegPow(Tr[l]) THEN PrintT(<<"NEGPOW", l>>) ELSE PrintT(<<"MISMATCH", l>>)))
+         /\ (l <= 0 \/ Unjudged \notin Admissible(Tr[l].tokens) \/ PrintT(<<"UNJ", l>>))          \* (counted in the evidence: not judged)
 =============================================================================
